@@ -40,7 +40,9 @@ REPO = os.environ.get("VERIF_REPO", "/repo")
 COQ = os.path.join(VERIF, "coq")
 THEORIES = os.path.join(COQ, "theories")
 WORK = os.path.join(VERIF, ".work")
-EVID = os.path.join(VERIF, "evidence")
+# evidence is only ever written for /repo itself: a run against a scratch copy (VERIF_REPO, used
+# for mutation experiments and seeded changes) writes to .work/evidence-scratch instead
+EVID = os.path.join(VERIF, "evidence") if os.path.realpath(REPO) == "/repo" else os.path.join(WORK, "evidence-scratch")
 REPLAY = os.path.join(EVID, "replay")
 NCPU = min(16, os.cpu_count() or 4)
 
